@@ -1,25 +1,27 @@
+\* the same re-basing variant WITHOUT user steps: every property of the run itself still holds -
+\* the loops reset before every compensation, so the run alone cannot see it (why the what-if
+\* histories are part of the model and of the recorded traces)
 SPECIFICATION Spec
 CONSTANTS
   Values <- MCValues
   Nom <- MCNom
-  Shape = "mc"
-  KindSets <- AllKinds
+  Shape = "sens"
+  KindSets <- RangeOnly
   RangeVals <- MCRange
   ScalarVal = 2
   NTrials = 2
-  Streams <- Streams4
+  Streams <- NoStream
   WithComp = TRUE
   CompFns <- MCCompFns
   FailSets <- MCFailSets
   TrialReset = TRUE
   FinalReset = TRUE
-  CompRebases = FALSE
+  CompRebases = TRUE
   MaxUser = 0
 INVARIANT TypeOK
 INVARIANT RowsTrue
 INVARIANT NominalReproduced
 INVARIANT Reproducible
 INVARIANT EndStateNominal
-INVARIANT HandlesNominal
 PROPERTY ResetRestores
 CHECK_DEADLOCK FALSE
